@@ -983,6 +983,36 @@ func checkC19Enforcement(c *Ctx) {
 	r.Rule("C19.7", "every admitted covert passed the subnet lists and the domain patterns", 2)
 	checkCovertGuard(c, "C19.7", true)
 
+	// ---- C19.8 the phantom blocklist is enforced for every registration source
+	r.Rule("C19.8", "the phantom blocklist is applied to every source except the local detector", 1)
+	checkPhantomBlocklistAllSources(c, "C19.8")
+
+	// ---- C19.9 a reload does not remove tracked registrations: the expiry sweep's removal uses the record it looked up
+	// without a found-test, which is safe only while the sweep is the one remover
+	r.Rule("C19.9", "the reload path deletes nothing from the registration tables", 1)
+	if f := c.fn("C19.9", lib, "RegistrationManager", "OnReload"); f != nil {
+		var bad []string
+		var pos token.Pos = f.Pos()
+		for _, g := range staticClosure([]*ssa.Function{f}, func(h *ssa.Function) bool { return fnPkgPath(h) == repoMod+"/"+lib }) {
+			eachInstr(g, func(in ssa.Instruction) {
+				call, ok := in.(*ssa.Call)
+				if !ok {
+					return
+				}
+				if b, isB := call.Call.Value.(*ssa.Builtin); isB && b.Name() == "delete" {
+					mp := pathOf(call.Call.Args[0])
+					if strings.HasSuffix(mp, ".decoysTimeouts") || strings.Contains(mp, ".decoys[") || strings.HasSuffix(mp, ".decoys") {
+						bad = append(bad, fnName(g)+": delete from "+firstN(mp, 30))
+						pos = in.Pos()
+					}
+				}
+			})
+		}
+		sort.Strings(bad)
+		r.Check(len(bad) == 0, "C19.9", "OnReload: no removal of tracked registrations", pos, fnName(f), "no delete on the registration tables reachable from OnReload",
+			"the reload path removes tracked registrations ("+firstN(strings.Join(bad, "; "), 160)+"): the expiry sweep collects expired records and removes them in a second phase without re-checking that they still exist, so a reload that coincides with the sweep removes a record twice and the second removal dereferences a nil record - housekeeping panics")
+	}
+
 	// ---- C19.5 lock discipline of the reload and decision path
 	r.Rule("C19.5", "reload and policy decisions release every lock they take", 1)
 	var fns []*ssa.Function
